@@ -201,6 +201,10 @@ pub mod validators;
 
 #[doc(hidden)]
 pub mod registry;
+#[cfg(feature = "verif-hooks")]
+#[doc(hidden)]
+#[allow(missing_docs)]
+pub mod verif_hooks;
 
 pub use async_graphql_parser as parser;
 pub use async_graphql_value::{
